@@ -118,3 +118,56 @@ Proof.
   cbv zeta. repeat split; try (left; reflexivity); try (right; reflexivity);
     try (repeat constructor; discriminate); try (vm_compute; reflexivity).
 Qed.
+
+(* ------------------------------------------------------------------------------------ *)
+(* THE TIE TO THE SOURCE TEXT (DESIGN 2.4 (a)).  Gen/*.v is rewritten from
+   /repo/src/cr/cube/{matrix,stripe}/cubemeasure.py on every check by the ast translator; the
+   theorems below say that what the source SAYS NOW ([teval] of the translated term,
+   Base/Tensor.v), for the class the factory picks for a (rows, columns) pair, IS the baseline
+   [baseline_of] the theorems above are about -- result shape and every in-range cell (or "None" exactly
+   where the model says the margin is undefined), for all tensors and sizes.  [None] on the
+   left = the translator could not read the method (then only the correspondence ties it).
+   A change of meaning in the source breaks these obligations (Proofs/GenAgree.v fails). *)
+From Coq Require Import String.
+From CC Require Import Base.Tensor Gen.CubeCountsSrc Gen.StripeCountsSrc Gen.Tables
+     Proofs.GenAgreeTac Proofs.GenAgreeCounts Proofs.GenAgreeBaseline.
+
+(* the four _*UnconditionalCubeCounts.baseline variants, through the factory's own dispatch.
+   W = counts_with_missings[_slice_idx_expr] (raw shape: all rows nar, all columns nac, raw
+   selection axes sa); vr / vc = valid offsets of the rows / columns dimension *)
+Theorem C16_gen_baseline :
+  match src_UnconditionalCubeCounts_dispatch with
+  | Some D => forall rmr cmr,
+      meth src_methods (cond_pick rmr cmr (fst D) (snd D)) "baseline"
+        (fun e => forall W vr vc nar nac sa,
+           agrees2 (teval (envW (bl_shape rmr cmr nar nac sa) W vr vc) e)
+                   (bl_rows rmr cmr vr nar) (bl_cols cmr nac) (baseline_of W vr nac sa rmr cmr))
+  | None => True
+  end.
+Proof. exact gen_dispatch_baseline. Qed.
+Print Assumptions C16_gen_baseline.
+
+(* the baseline classes get counts_with_missings cut by _slice_idx_expr, which is [slice_at] *)
+Theorem C16_gen_baseline_input :
+  binds_to src_UnconditionalCubeCounts_binds "_counts_with_missings"
+           (FSliced (FCube "counts_with_missings")) /\
+  match src_slice_idx_expr with
+  | Some R => forall ndim table_mr k (T : tensor) idx, idx <> [] ->
+      slice_rule_apply R ndim table_mr k T idx = slice_at ndim table_mr k T idx
+  | None => True
+  end.
+Proof.
+  exact (conj (proj2 (proj2 (proj2 (proj2 (proj2 gen_factory_binds))))) gen_slice_idx_expr).
+Qed.
+Print Assumptions C16_gen_baseline_input.
+
+Theorem C16_gen_counts :
+  match src_CubeCounts_dispatch with
+  | Some D => forall rc cc,
+      meth src_methods (dict_pick (tag rc, tag cc) (fst D) (snd D)) "counts"
+        (fun e => forall V nr nc sr sc,
+           agrees2 (teval (envC (shape_of rc cc nr nc sr sc) V) e) nr nc (counts_of V rc cc))
+  | None => True
+  end.
+Proof. exact gen_dispatch_counts. Qed.
+Print Assumptions C16_gen_counts.
